@@ -255,6 +255,51 @@ func (c *BCtx) LenOf(v ssa.Value) Lin {
 		return c.LenOf(x.X)
 	case *ssa.ChangeType:
 		return c.LenOf(x.X)
+	case *ssa.UnOp:
+		// a field of a local struct variable with a single store that dominates this load
+		if fa, ok := x.X.(*ssa.FieldAddr); ok && x.Op == token.MUL {
+			if _, root := fieldPath(fa); root != nil {
+				if al, isAlloc := root.(*ssa.Alloc); isAlloc {
+					var stores []*ssa.Store
+					var collect func(v ssa.Value)
+					path, _ := fieldPath(fa)
+					collect = func(v ssa.Value) {
+						if v.Referrers() == nil {
+							return
+						}
+						for _, r := range *v.Referrers() {
+							switch y := r.(type) {
+							case *ssa.FieldAddr:
+								collect(y)
+							case *ssa.Store:
+								if y.Addr == v {
+									if pp, _ := fieldPath(y.Addr); pp == path {
+										stores = append(stores, y)
+									}
+								}
+							}
+						}
+					}
+					collect(al)
+					whole := false
+					for _, r := range *al.Referrers() {
+						if st, ok := r.(*ssa.Store); ok && st.Addr == ssa.Value(al) {
+							// `g := T{...}`: the literal is built in a temporary and copied whole
+							if ld, isld := st.Val.(*ssa.UnOp); isld && ld.Op == token.MUL {
+								if tmp, istmp := ld.X.(*ssa.Alloc); istmp && tmp.Comment == "complit" {
+									collect(tmp)
+									continue
+								}
+							}
+							whole = true
+						}
+					}
+					if len(stores) == 1 && !whole && stores[0].Block().Dominates(x.Block()) && (stores[0].Block() != x.Block() || true) {
+						return c.LenOf(stores[0].Val)
+					}
+				}
+			}
+		}
 	}
 	return atomL("len[" + c.class(v) + "]")
 }
